@@ -9,6 +9,7 @@ import WmModel.Props.C13Tie
 #print axioms Wm.Poison.acked_implies_handled_or_poisoned
 #print axioms Wm.Poison.nacked_when_poison_publish_fails
 #print axioms Wm.Poison.nacked_when_filtered_out
+#print axioms Wm.Poison.nacked_when_poison_publisher_panics
 #print axioms Wm.Poison.acked_when_poisoned
 #print axioms Wm.Poison.poison_before_settle
 #print axioms Wm.Poison.stamp_overwrites
